@@ -75,6 +75,7 @@ func genStep(t *rapid.T, persistent bool) sim.Step {
 		"prewrite", "prewrite", "commit", "commit", "commit",
 		"read", "read", "read", "read",
 		"isolate", "heal", "campaign", "transfer", "sleep",
+		"hold", "holdto", "release",
 	}
 	if persistent {
 		kinds = append(kinds, "restart")
@@ -89,8 +90,10 @@ func genStep(t *rapid.T, persistent bool) sim.Step {
 	switch k {
 	case "pump":
 		return st(k, rapid.IntRange(0, 60).Draw(t, "n"))
-	case "deliver", "drop", "dup", "defer":
+	case "deliver", "drop", "dup", "defer", "hold":
 		return st(k, rapid.IntRange(0, 11).Draw(t, "k"))
+	case "holdto":
+		return st(k, rapid.IntRange(0, 6).Draw(t, "s"), rapid.IntRange(0, 1).Draw(t, "r"))
 	case "tick":
 		return st(k, rapid.IntRange(0, 3).Draw(t, "s"), rapid.IntRange(0, 5).Draw(t, "n"))
 	case "prewrite", "read":
@@ -115,7 +118,7 @@ func write(r, key int) []sim.Step {
 func noise(t *rapid.T) []sim.Step {
 	var out []sim.Step
 	for i := rapid.IntRange(0, 3).Draw(t, "noise"); i > 0; i-- {
-		k := rapid.SampledFrom([]string{"deliver", "deliver", "drop", "dup", "defer", "defer", "tick"}).Draw(t, "nop")
+		k := rapid.SampledFrom([]string{"deliver", "deliver", "drop", "dup", "defer", "defer", "tick", "hold"}).Draw(t, "nop")
 		out = append(out, st(k, rapid.IntRange(0, 7).Draw(t, "nk"), rapid.IntRange(0, 3).Draw(t, "nb")))
 	}
 	return out
@@ -124,7 +127,27 @@ func noise(t *rapid.T) []sim.Step {
 func fragment(t *rapid.T, regions int) []sim.Step {
 	r := rapid.IntRange(0, regions-1).Draw(t, "fr")
 	key := rapid.IntRange(0, 1).Draw(t, "fkey")
-	switch rapid.IntRange(0, 5).Draw(t, "frag") {
+	switch rapid.IntRange(0, 7).Draw(t, "frag") {
+	case 6, 7:
+		// overlapping reads at a leader whose heartbeat acknowledgements are slow: read R1 is
+		// issued, its heartbeats reach the followers but the acknowledgements are held back;
+		// the leader is partitioned away, a new leader acknowledges a write; R2 is issued at the
+		// old leader while R1 is still waiting; then the old acknowledgements arrive.
+		out := write(r, key)
+		out = append(out, st("read", 3, r, key))
+		if rapid.IntRange(0, 3).Draw(t, "early") == 0 {
+			out = append(out, st("read", 3, r, key)) // a second reader right away
+		}
+		out = append(out, st("pump", rapid.IntRange(1, 3).Draw(t, "hb")), st("holdto", 3, r))
+		out = append(out, st("isolate", 3, r), st("campaign", 5+rapid.IntRange(0, 1).Draw(t, "who"), r), st("pump", 80))
+		out = append(out, write(r, key)...)
+		out = append(out, st("read", 4, r, key))
+		out = append(out, noise(t)...)
+		if rapid.IntRange(0, 1).Draw(t, "healfirst") == 0 {
+			out = append(out, st("heal"))
+		}
+		out = append(out, st("release"), st("pump", rapid.IntRange(1, 6).Draw(t, "acks")), st("heal"), st("read", 3, r, key), st("pump", 80))
+		return out
 	case 0, 1: // the leader is partitioned away, a new leader acknowledges a write, the old one is asked to read
 		out := write(r, key)
 		out = append(out, st("isolate", 3, r), st("campaign", 5+rapid.IntRange(0, 1).Draw(t, "who"), r), st("pump", 80))
